@@ -56,7 +56,7 @@ const (
 	stAbsent = iota
 	stCreated
 	stAdvanced // initial state signed by both and enabled (phase Funding)
-	stStaged   // funded, one update staged and signed by one side (thorough tier)
+	stStaged   // funded, one update staged and signed by one side
 	stRemoved
 )
 
@@ -77,7 +77,9 @@ func newCWorld(backend string) *cworld {
 
 func (w *cworld) close() { w.b.close() }
 
-func (w *cworld) live(i int) bool { return w.st[i] == stCreated || w.st[i] == stAdvanced || w.st[i] == stStaged }
+func (w *cworld) live(i int) bool {
+	return w.st[i] == stCreated || w.st[i] == stAdvanced || w.st[i] == stStaged
+}
 
 type cop struct {
 	kind string
@@ -86,11 +88,8 @@ type cop struct {
 
 func (o cop) name() string { return fmt.Sprintf("%s(c%d)", o.kind, o.ch+1) }
 
-func cAlphabet(thorough bool) []cop {
-	kinds := []string{"Create", "Advance", "Remove"}
-	if thorough {
-		kinds = []string{"Create", "Advance", "Stage", "Remove"}
-	}
+func cAlphabet() []cop {
+	kinds := []string{"Create", "Advance", "Stage", "Remove"}
 	var out []cop
 	for _, k := range kinds {
 		for i := 0; i < nChan; i++ {
@@ -271,7 +270,9 @@ func (w *cworld) check(op *cop, prev []snap) (out []cviol) {
 			}
 		}
 	}
-	add := func(clause, format string, a ...interface{}) { out = append(out, cviol{clause, fmt.Sprintf(format, a...)}) }
+	add := func(clause, format string, a ...interface{}) {
+		out = append(out, cviol{clause, fmt.Sprintf(format, a...)})
+	}
 
 	// RestoreChannel: live channels with their data; channels that are not there fail like a channel that never was
 	for i := 0; i < nChan; i++ {
@@ -434,7 +435,7 @@ func cnames(alpha []cop, h []int) []string {
 }
 
 func c11Run(t *testing.T, res *report.Result) {
-	alpha := cAlphabet(res.Thorough())
+	alpha := cAlphabet()
 	backends := []string{"memorydb"}
 	if res.Thorough() {
 		backends = append(backends, "leveldb")
@@ -527,7 +528,7 @@ func c11Run(t *testing.T, res *report.Result) {
 }
 
 func c11ReplayRun(t *testing.T, res *report.Result, rp c11Replay) {
-	alpha := cAlphabet(rp.Tier == "thorough")
+	alpha := cAlphabet()
 	byName := map[string]int{}
 	for i, o := range alpha {
 		byName[o.name()] = i
